@@ -4,6 +4,8 @@
        arrays or scalars); (b) accumulation of contributions (add) and scalar
        multiplication stay in the value's space - same nesting, keys, shapes,
        kinds - for every container nesting; zeros of a space lie in it;
+   (d) the selection, bilinear and realified rule families land in the
+       argument's space (see the end of this file);
    (c) the dense value of an indexing cotangent (untake) has the structure of
        the indexed container.  Per-primitive shape/kind conformance of the
    structured rules is examined on the implementation (oracle). *)
@@ -40,3 +42,29 @@ Theorem C05_index_cotangent_has_container_structure :
                 /\ inner K k0 kadd kmul (Seq t l) u = inner K k0 kadd kmul c g.
 Proof. exact take_untake_adjoint_int. Qed.
 Print Assumptions C05_index_cotangent_has_container_structure.
+
+(* (d) the structured rule families land in the argument's space: selection primitives (the scatter-add has the argument's
+   size, whatever the selection list), bilinear primitives (each of the two reverse rules has its own operand's size, the
+   forward value the output's), R-linear primitives on realified complex/real arrays (the rule's result has the realified
+   size of the argument: a real argument receives a real array, a complex argument a complex one). *)
+From AG Require Import Index Select Bilinear Realified.
+Theorem C05_structured_rules_land_in_argument_space :
+  forall (K : Type) (k0 k1 : K) (kadd kmul ksub : K -> K -> K) (kopp : K -> K),
+    ring_theory k0 k1 kadd kmul ksub kopp eq ->
+    (forall n sel g (v : list K), List.Forall (Select.in_bounds K n) sel -> length g = length sel -> length v = n ->
+        length (Select.sscatter K k0 kadd kmul n sel g) = n)
+    /\ (forall na nb no S A B g, List.Forall (Bilinear.in_bounds K na nb no) S -> length A = na -> length B = nb -> length g = no ->
+        length (Bilinear.vjpA K k0 kadd kmul na S g B) = na /\ length (Bilinear.vjpB K k0 kadd kmul nb S g A) = nb
+        /\ length (Bilinear.bil K k0 kadd kmul no S A B) = no)
+    /\ (forall cin cout na no S g v, List.Forall (Bilinear.in_bounds K na 1 no) S -> length v = na -> length g = no ->
+        length (cvjp K k0 k1 kadd kmul kopp cin cout na S g) = na /\ length (lin K k0 k1 kadd kmul no S v) = no).
+Proof.
+  intros K k0 k1 kadd kmul ksub kopp HR. split; [|split].
+  - intros n sel g v H1 H2 H3. exact (proj1 (proj2 (Select.selection_rule_adjoint K k0 k1 kadd kmul ksub kopp HR n sel g v H1 H2 H3))).
+  - intros na nb no S A B g H1 H2 H3 H4.
+    destruct (bilinear_rules_adjoint K k0 k1 kadd kmul ksub kopp HR na nb no S A B g H1 H2 H3 H4) as (_ & _ & L1 & L2 & L3).
+    exact (conj L1 (conj L2 L3)).
+  - intros cin cout na no S g v H1 H2 H3.
+    exact (proj2 (convention_pairing K k0 k1 kadd kmul ksub kopp HR cin cout na no S g v H1 H2 H3)).
+Qed.
+Print Assumptions C05_structured_rules_land_in_argument_space.
